@@ -274,6 +274,7 @@ func ruleC20(c *Ctx, r *Report) {
 		})
 	}
 	r.Floor("C20-R3", 1, "header-setting calls inspected")
+	noRedirectRule(c, r, "C20-R3")
 	r.Analysed["header_calls"] = nHdr
 }
 
